@@ -6,9 +6,7 @@ import TakVerif.Proofs.PTNIter
 
 The theorems are about the model in `Impl/PTN.lean` (tied to `ptn/ptn.go`, `ptn/iterator.go` by the
 correspondence run of `./check C12`).  `Pos.apply` is the model of `Position.Move` (C01).
-Standing hypotheses:
-* `hflood`: `Position.Move` does not run out of flood-fill fuel (the model's only `hang`; sufficiency of
-  the fuel is a lemma of the bitboard package, not proved here);
+Standing hypothesis:
 * `NoZero ops`: no `Move` op carries move type 0.  `ParseMove` never produces one; a hand-built `PTN` can
   (`AddMoves` of a zero `tak.Move`), and then `Next` silently skips it — compared by correspondence only. -/
 namespace C12
@@ -17,12 +15,11 @@ open Tak PTN
 /-- **Iterator.**  Calling `Next` until it returns false shows exactly the frames of the list-level replay
 `specFrames` of the ops from the start position (`collect` = one (marker, position) pair per successful
 call, plus whether `Err()` is set at the end); `len(Ops)+2` calls always suffice. -/
-theorem iterator_spec (env : Env) (hflood : ∀ p m s, Pos.apply env.basis p m ≠ .error (.hang s))
-    (f : File) (p0 : Pos) (hinit : initialPosition env f = .ok p0) (hnz : NoZero f.ops) :
+theorem iterator_spec (env : Env) (f : File) (p0 : Pos) (hinit : initialPosition env f = .ok p0) (hnz : NoZero f.ops) :
     ∃ it0, iterator env f = .ok it0 ∧
       collect env (f.ops.length + 2) it0 = .ok (specFrames env.basis f.ops 0 p0) := by
   refine ⟨_, by unfold iterator; rw [hinit], ?_⟩
-  exact collect_idle env hflood _ p0 _ rfl rfl rfl rfl hnz (Nat.le_refl _)
+  exact collect_idle env (fun p m s => apply_noHang _ p m s) _ p0 _ rfl rfl rfl rfl hnz (Nat.le_refl _)
 
 /-- **What the frames are.**  For the frames `fs` and error flag `e` of the replay of `ops` from `p0`:
 1. the `j`-th frame (shown by the `j+1`-st successful `Next`) holds the start position with exactly the
@@ -84,13 +81,12 @@ to move is `c` (by `frames_spec`: the start position with exactly the moves befo
 if there is none: an error when the replay met an illegal move, an error ("move not found") when `n > 0`
 — a request beyond the recorded game —, and the final position when `n ≤ 0` (`n = 0` is the documented
 "final position").  `NoColor` with `n ≠ 0` is rejected. -/
-theorem positionAtMove_spec (env : Env) (hflood : ∀ p m s, Pos.apply env.basis p m ≠ .error (.hang s))
-    (f : File) (p0 : Pos) (hinit : initialPosition env f = .ok p0) (hnz : NoZero f.ops)
+theorem positionAtMove_spec (env : Env) (f : File) (p0 : Pos) (hinit : initialPosition env f = .ok p0) (hnz : NoZero f.ops)
     (n : Int) (c : Color) :
     (c = .none ∧ n ≠ 0 → ∃ w, positionAtMove env f n c = .error (.illegal w)) ∧
     (¬(c = .none ∧ n ≠ 0) →
       AtSpec (positionAtMove env f n c) n c (specFrames env.basis f.ops 0 p0).1 (specFrames env.basis f.ops 0 p0).2 none) := by
-  obtain ⟨it0, hit, hcol⟩ := iterator_spec env hflood f p0 hinit hnz
+  obtain ⟨it0, hit, hcol⟩ := iterator_spec env f p0 hinit hnz
   constructor
   · rintro ⟨hc, hn⟩
     unfold positionAtMove
@@ -132,5 +128,30 @@ theorem positionAtMove_init_error (env : Env) (f : File) (w : String)
       intro it h; unfold Iter.next; rw [if_pos (by simp [h])]
     rw [this _ rfl]
     exact ⟨w, rfl⟩
+
+/-! #### a concrete record meets the hypotheses, and the theorems say something about it -/
+
+/-- `[Size "3"]  1. a1 b2  2. c3 {x}  3.` with the transcribed move functions -/
+def exEnv : Env :=
+  { parseMove := Inst.parseMove, formatMove := Inst.formatMove,
+    parseTPS := fun _ => .error (.illegal "no TPS"), basis := Array.replicate 64 0#64 }
+
+def exFile : File :=
+  ⟨[⟨tagSize, [51]⟩],
+   [.moveNumber [] 1, .move [] ⟨0, 0, Facts.mtPlaceFlat, 0#32⟩ [], .move [] ⟨1, 1, Facts.mtPlaceFlat, 0#32⟩ [],
+    .moveNumber [] 2, .move [] ⟨2, 2, Facts.mtPlaceFlat, 0#32⟩ [], .comment [] [120], .moveNumber [] 3]⟩
+
+example : ∃ p0, initialPosition exEnv exFile = .ok p0 := ⟨_, rfl⟩
+
+example : NoZero exFile.ops := by
+  intro src m mods h
+  simp only [exFile, List.mem_cons, Op.move.injEq, List.mem_nil_iff, or_false, reduceCtorEq, false_or] at h
+  rcases h with ⟨_, rfl, _⟩ | ⟨_, rfl, _⟩ | ⟨_, rfl, _⟩ <;> decide
+
+/-- four frames: markers 1, 1, 2 and — after the last move — 3; white to move in frames 0 and 2 -/
+example : ∃ p0, initialPosition exEnv exFile = .ok p0 ∧
+    (specFrames exEnv.basis exFile.ops 0 p0).1.map (fun fr => (fr.1, fr.2.move)) = [(1, 0), (1, 1), (2, 2), (3, 3)] ∧
+    (specFrames exEnv.basis exFile.ops 0 p0).2 = false :=
+  ⟨_, rfl, by decide, by decide⟩
 
 end C12
